@@ -60,8 +60,9 @@ class C14(Property):
     pid = "C14"
     quick_n = 3000
     thorough_n = 100000
-    partial = ["proved: the name filters (arg_matches, cmd_matches) are sound; that hints are pushed only by visible leaves of "
-               "the active path and completeness for fresh prefixes are decided by the oracle (no model of the hint bookkeeping)"]
+    partial = ["proved: the second stage (Complete::complete: deepest level only, positional-only and value-only modes, name filters, "
+               "shapes of replacement and display strings) is sound and complete w.r.t. the collected hints; that hints are pushed only "
+               "by visible leaves of the active path (the first stage, threaded through every parser) is decided by the oracle"]
 
     def gen_def(self, rng):
         opts, names = gen.gen_options(rng, features=rng.choice([("alt", "cmd", "pos"), ("cmd", "pos"), ("alt", "adj", "cmd", "pos")]),
@@ -179,8 +180,41 @@ class C14(Property):
             else:
                 name = rng.choice(["alpha", "beta", "al", "é"])
                 self.filter_lines.append("(cmdmatch fm%d %s %s %s)" % (i, gen.hx(arg), gen.hx(name), "-" if short is None else str(ord(short))))
-        model = infra.run_model(self.filter_lines)
-        impl = infra.run_driver(lines + self.filter_lines)
+        # the second stage, Complete::complete, on explicit hint lists: model (Model/Complete.v) against the library (hook)
+        self.comps_lines = []
+        o = lambda v: "-" if v is None else gen.hx(v)
+        sh = lambda v: "-" if v is None else str(ord(v))
+        for i in range(800 if len(cases) < 10000 else 20000):
+            hints = []
+            depths = rng.choice([[0], [0, 1], [0, 1, 1, 2], [1, 1, 1, 3]])
+            for _ in range(rng.choice([0, 1, 2, 3, 4, 6, 9])):
+                d = rng.choice(depths)
+                g = rng.choice([None, None, "grp", "g é"])
+                h = rng.choice([None, None, "help text", "it's"])
+                kind = rng.choice(["flag", "flag", "argument", "argument", "command", "value", "meta", "shell"])
+                short = rng.choice([None, "a", "é", "b"])
+                long_ = rng.choice([None, "alpha", "beta", "é", "al"])
+                a = rng.choice(["0", "0", "1"])
+                if kind == "flag":
+                    hints.append("(flag %d %s %s %s %s)" % (d, o(g), o(h), sh(short), o(long_)))
+                elif kind == "argument":
+                    hints.append("(argument %d %s %s %s %s %s)" % (d, o(g), o(h), sh(short), o(long_), gen.hx(rng.choice(["ARG", "FILE", "é"]))))
+                elif kind == "command":
+                    hints.append("(command %d %s %s %s %s)" % (d, o(g), o(h), gen.hx(rng.choice(["alpha", "beta", "al", "é"])), sh(short)))
+                elif kind == "value":
+                    hints.append("(value %d %s %s %s %s)" % (d, o(g), o(h), gen.hx(rng.choice(COMPLETER_VALUES + ["--"])), a))
+                elif kind == "meta":
+                    hints.append("(meta %d %s %s %s %s)" % (d, o(g), o(h), gen.hx(rng.choice(["ARG", "FILE"])), a))
+                else:
+                    op = rng.choice(["(file -)", "(file %s)" % gen.hx("*.rs"), "(dir -)", "(nothing)",
+                                     "(raw %s %s %s %s)" % (gen.hx("b"), gen.hx("z"), gen.hx("f"), gen.hx("e"))])
+                    hints.append("(shell %d %s %s %s %s)" % (d, o(g), o(h), op, a))
+            arg = rng.choice(pool)
+            prefix = rng.choice(["na", "na", "(s %d)" % ord(rng.choice("aé")), "(l %s)" % gen.hx(rng.choice(["alpha", "é"]))])
+            self.comps_lines.append("(comps cp%d (hints %s) (arg %s) (pos %s) (named %s) (prefix %s))"
+                                    % (i, " ".join(hints), gen.hx(arg), rng.choice("001"), rng.choice("01"), prefix))
+        model = infra.run_model(self.filter_lines + self.comps_lines)
+        impl = infra.run_driver(lines + self.filter_lines + self.comps_lines)
         return model, impl
 
     def judge(self, cases, model, impl):
@@ -190,6 +224,16 @@ class C14(Property):
             if model.get(fid) != impl.get(fid):
                 out.append(Finding("disagree", cases[0], "name filter %s: model %s vs implementation %s" % (ln, model.get(fid), impl.get(fid))))
         dist["filter_cases"] = len(self.filter_lines)
+        dist["hint_list_cases"] = len(self.comps_lines)
+        nonempty = 0
+        for ln in self.comps_lines:
+            fid = ln.split()[1]
+            m, i = model.get(fid), impl.get(fid)
+            if m != i or not m or m[0] != "COMPLETE":
+                out.append(Finding("disagree", cases[0], "Complete::complete on %s: model %s vs implementation %s" % (ln[:400], m, i)))
+            elif len(m) > 1 and m[1]:
+                nonempty += 1
+        dist["hint_lists_with_candidates"] = nonempty
         for c in cases:
             ic = impl.get(c.id)
             t = c.tags
